@@ -291,10 +291,14 @@ fn run_beh(beh: &Value, args: &Args, notes: &mut Vec<String>) -> Result<(u64, us
                 let p = st.g("pub");
                 let kind = p.s("kind");
                 let prio = if kind == "fin" { Priority::Finalize } else { Priority::Basic(p.u("prio") as u32) };
-                let a = AAction {
+                let mut a = AAction {
                     cmds: vec![Publish { id: ids::basic_id(p.u("rank") as u8, 0), prio, op: p.s("op").as_bytes()[0], label: p.u("n").to_string() }],
                     fail_after: None,
                 };
+                let p2 = st.get("pub2");
+                if let Some(p2) = p2 {
+                    a.cmds.push(Publish { id: ids::basic_id(p2.u("rank") as u8, 0), prio: Priority::Basic(0), op: b'n', label: p2.u("n").to_string() });
+                }
                 let before = w.reps.get_mut(&r).unwrap().view().map_err(|e| f(si, "tool:view", e))?;
                 let mut sink = ASink::new();
                 audit::OBSERVED.with(|o| *o.borrow_mut() = None);
@@ -310,13 +314,21 @@ fn run_beh(beh: &Value, args: &Args, notes: &mut Vec<String>) -> Result<(u64, us
                     }
                 }
                 let eff: Vec<String> = sink.committed.iter().map(|e| e.label.clone()).collect();
-                if eff != vec![p.u("n").to_string()] || !sink.rolled_back.is_empty() {
+                let mut want_eff = vec![p.u("n").to_string()];
+                if let Some(p2) = p2 {
+                    want_eff.push(p2.u("n").to_string());
+                }
+                // quiet commands emit their effect too (the audit rule always consumes one)
+                if eff != want_eff || !sink.rolled_back.is_empty() {
                     return Err(f(si, "C04:collapse-effects", format!("action delivered effects {eff:?}; expected only the published command's")));
                 }
                 if audit::take_log().iter().any(|c| c.merge) {
                     return Err(f(si, "C02:merge-evaluated", "a merge command reached call_rule during collapse".into()));
                 }
                 w.register_node(p).map_err(|e| f(si, "tool:universe", e))?;
+                if let Some(p2) = p2 {
+                    w.register_node(p2).map_err(|e| f(si, "tool:universe", e))?;
+                }
                 let v = check_view(&mut w, r, st.g("view"), si, false)?;
                 // C07: one new head descending from every previous head
                 if v.heads.len() != 1 || !before.reachable.is_subset(&v.reachable) {
@@ -442,6 +454,11 @@ fn run_beh(beh: &Value, args: &Args, notes: &mut Vec<String>) -> Result<(u64, us
                 };
                 let cmd = match shape {
                     "foreign_init" => ACmd::new(foreign, Priority::Init, Prior::None, b'n', "X"),
+                    "foreign_nopolicy" => {
+                        let mut c = ACmd::new(foreign, Priority::Init, Prior::None, b'n', "X");
+                        c.policy = None;
+                        c
+                    }
                     "nopolicy_init" => {
                         let mut c = ACmd::new(ids::init_id(), Priority::Init, Prior::None, b'n', "1");
                         c.policy = None;
